@@ -133,6 +133,11 @@ class GateTransport:
 
     def rename(self, a, b):
         self._gate("rename:%s>%s" % (_kind_of(a), _kind_of(b)))
+        if not self._w.t.has(a):
+            # MemoryTransport.rename silently ignores a missing source; every real
+            # transport raises NoSuchFile, and so does the gate
+            from dromedary.errors import NoSuchFile
+            raise NoSuchFile(a)
         return self._w.t.rename(a, b)
 
     def get_bytes(self, p):
@@ -201,9 +206,14 @@ class Worker(threading.Thread):
 
 
 _POOL = []
+_POOL_PID = [None]
 
 
 def _workers(world, n):
+    if _POOL_PID[0] != os.getpid():
+        # forked child (ctx.pmap): the parent's threads do not exist here
+        del _POOL[:]
+        _POOL_PID[0] = os.getpid()
     while len(_POOL) < n:
         w = Worker(len(_POOL))
         _POOL.append(w)
@@ -326,6 +336,8 @@ class World:
             return "E:NoSuchFile"
         except AssertionError:
             return "E:Assert"
+        except Exception as e:
+            return "E:" + type(e).__name__
 
     def _set_env(self, lid):
         os.environ["LOGNAME"] = "verifuser%d" % self.cfgs[lid][1]
@@ -600,13 +612,13 @@ def model_line(case):
 
 # ---- schedule generation ----------------------------------------------------------
 
-def explore(cfgs, programs, held="-", limit=None):
+def explore(cfgs, programs, held="-", limit=None, root=()):
     """stateless depth-first enumeration of ALL interleavings of the given
     per-locker programs (a choice = one locker: start its next operation if it is
     idle, otherwise perform its pending call).  Yields (case, obs, oracle)."""
     install()
     n = len(cfgs)
-    prefix = []          # list of (choice, alternatives still to try)
+    prefix = [(c, []) for c in root]          # list of (choice, alternatives still to try)
     count = 0
     while True:
         w = World([tuple(c) for c in cfgs], held=held)
@@ -649,7 +661,7 @@ def explore(cfgs, programs, held="-", limit=None):
         # backtrack
         while prefix and not prefix[-1][1]:
             prefix.pop()
-        if not prefix:
+        if len(prefix) <= len(root) and not (prefix and prefix[-1][1]):
             return
         _, alts = prefix.pop()
         prefix.append((alts[0], alts[1:]))
@@ -689,11 +701,11 @@ def random_case(rng, faults=False):
         r = rng.random()
         if r < crash_p:
             events.append("x%d" % cur)
-        elif r < crash_p + 0.22 and pcs[cur] < len(progs[cur]):
+        elif r < crash_p + fault_p:
+            events.append("f%d%s" % (cur, rng.choice("TP")))
+        elif r < crash_p + fault_p + 0.22 and pcs[cur] < len(progs[cur]):
             events.append("s%d%s" % (cur, progs[cur][pcs[cur]]))
             pcs[cur] += 1
-        elif r < crash_p + 0.22 + fault_p:
-            events.append("f%d%s" % (cur, rng.choice("TP")))
         else:
             events.append("t%d" % cur)
     return dict(cfgs=cfgs, held="-", events=events)
@@ -776,6 +788,16 @@ def _record(ctx, case, obs, oracle, cases, lines, outs):
     outs.append("|".join(obs))
 
 
+def _explore_job(job):
+    cfgs, progs, root = job
+    return list(explore(cfgs, progs, root=root))
+
+
+def _case_job(case):
+    obs, oracle = run_case(case)
+    return case, obs, oracle
+
+
 def run(ctx):
     install()
     cases, lines, outs = [], [], []
@@ -793,21 +815,24 @@ def run(ctx):
         ctx.count("directed:F7")
     # exhaustive: every interleaving of two lockers
     plain = [[1, 1, False], [1, 1, False]]
-    suites = [(plain, [["a", "u"], ["a"]]), (plain, [["a"], ["a"]])]
+    suites = [(plain, [["a", "u"], ["a"]]), (plain, [["a"], ["a"]]), (plain, [["a", "c"], ["a", "c"]])]
     if ctx.thorough():
         suites.append((plain, [["a", "u"], ["a", "u"]]))
+    jobs = [(cfgs, progs, root) for cfgs, progs in suites for root in itertools.product((0, 1), repeat=3)]
     total = 0
-    for cfgs, progs in suites:
-        for case, obs, oracle in explore(cfgs, progs):
+    for res in ctx.pmap(_explore_job, jobs, chunksize=1):
+        for case, obs, oracle in res:
             _record(ctx, case, obs, oracle, cases, lines, outs)
             total += 1
     ctx.extra["exhaustive_interleavings"] = total
     # sampled
-    for _ in range(ctx.pick(2500, 30000)):
+    rnd = []
+    for _ in range(ctx.pick(4000, 40000)):
         case = random_case(ctx.rng)
         if ctx.thorough() and ctx.rng.random() < 0.1:
             case["local"] = True
-        obs, oracle = run_case(case)
+        rnd.append(case)
+    for case, obs, oracle in ctx.pmap(_case_job, rnd):
         _record(ctx, case, obs, oracle, cases, lines, outs)
     ctx.diff(cases, lines, outs)
     ctx.exhaustive = True
